@@ -470,9 +470,13 @@ type Options struct {
 	Ticks         []int64 // clock deltas offered before a Now read
 	Clock0        int64
 	MaxSteps      int
-	KeepLocks     bool  // lock ownership survives into the next run with KeepLocks (a lock left held by a panicking request stays held)
-	Step0         int64 // first value of the step counter is Step0+1 (guarded sequential requests continue the global numbering)
-	Trace         bool
+	// TolerateDivergence: a schedule prefix that no longer fits (fewer alternatives at a node than when it was recorded)
+	// marks the execution as diverged and lets it run on with default choices instead of being a hard error. Only for
+	// scenarios whose control flow depends on real I/O (a loopback connect that times out under load changes the path).
+	TolerateDivergence bool
+	KeepLocks          bool  // lock ownership survives into the next run with KeepLocks (a lock left held by a panicking request stays held)
+	Step0              int64 // first value of the step counter is Step0+1 (guarded sequential requests continue the global numbering)
+	Trace              bool
 }
 
 type lockState struct {
@@ -499,7 +503,8 @@ type Exec struct {
 	WaitInfo  string
 	Foreign   int64
 	TicksUsed int
-	Detached  int // threads detached by the watchdog (see StuckTimeout)
+	Detached  int  // threads detached by the watchdog (see StuckTimeout)
+	Diverged  bool // the schedule prefix did not fit (only with Options.TolerateDivergence)
 	// MaxBlocked reports, per OpYield resource id, the set of thread ids that were
 	// observed disabled (blocked on a lock or channel) at some node — used by the
 	// "not queued" monitors.
@@ -684,7 +689,12 @@ func (r *run) choiceD(n int, def int, costs []Cost, desc func(int) string) int {
 	if k < len(r.prefix) {
 		idx = r.prefix[k]
 		if idx < 0 || idx >= n {
-			panic(fmt.Sprintf("vsched: replay divergence at node %d: choice %d of %d alternatives", k, idx, n))
+			if !r.opt.TolerateDivergence {
+				panic(fmt.Sprintf("vsched: replay divergence at node %d: choice %d of %d alternatives", k, idx, n))
+			}
+			r.x.Diverged = true
+			r.prefix = r.prefix[:k] // from here on: default choices
+			idx = def
 		}
 	}
 	nd := Node{Alts: n, Chosen: idx, Costs: costs}
@@ -1023,6 +1033,7 @@ type Explorer struct {
 	MaxPreempt  int
 	MaxDepth    int
 	CapHit      bool
+	Diverged    int64 // executions whose prefix did not fit (tolerated, not checked, not expanded)
 	Violations  []*Violation
 	StopOnFirst bool
 	OnExec      func(x *Exec)
@@ -1054,6 +1065,11 @@ func within(b Bounds, c [3]int) bool {
 func (e *Explorer) runOne(prefix []int) *Exec {
 	bodies, check := e.Setup()
 	x := Execute(e.Opt, prefix, bodies)
+	if x.Diverged {
+		e.Diverged++
+		check(x) // (lets the harness clean up; its verdict on an execution that is not the intended one is ignored)
+		return x
+	}
 	e.Execs++
 	e.Points += int64(len(x.Nodes))
 	if len(x.Nodes) > e.MaxDepth {
@@ -1138,6 +1154,10 @@ func (e *Explorer) Explore() bool {
 		} else {
 			bodies, _ := e.Setup()
 			x = Execute(e.Opt, prefix, bodies)
+		}
+		if x.Diverged {
+			complete = false
+			return true // not the execution this prefix stands for: nothing to expand
 		}
 		// cost of choices made on the default path after the prefix is zero by construction
 		acc := base
